@@ -79,6 +79,8 @@ def run_case(case, ctx):
     opts['probes'] = bool(rng.random() < 0.3)       # a probe table must not influence the channel choice (shank only)
     if opts['wm'] and case['seed'][-1] % 6 == 2:
         opts['wm_scale'] = 1e8
+    if opts['wm'] and case['seed'][-1] % 8 == 5:
+        opts['wmi_only'] = True          # the dataset ships whitening_mat_inv.npy only
     if case['seed'][-1] % 7 == 3:
         opts.update(pos_scale=1e-6, ties=False)          # a probe described in metres
     if not sparse and case['seed'][-1] % 5 == 1:
